@@ -26,6 +26,12 @@ CLAIMS = {
  "C02": ("exploration", "reference-codec referee over hostile frame sequences at a lock-step raw peer, alignment probes, consumed-byte and allocation accounting; hostile replies to a real client",
          "Every frame of sequences mixing good frames with each class of bad frame (unknown type, short body at every offset, inflated counts, bit flips, R-types, random bodies, payload-count mismatch) is refereed by the independent codec: well-delimited invalid frames must be answered Rlerror (tag or NOTAG) and an alignment probe after each frame must come back intact; size fields below 7 / above msize (before and after negotiation) must end the connection with 0 body bytes consumed, no reply, no backend call and no allocation; TotalAlloc deltas bound buffering. A real client is fed the same classes as replies to a pending call: it must return (error or exactly the encoded values), never hang or crash.",
          "Trusts the reference codec's notion of validity and net.Pipe byte accounting; the allocation bound is a coarse proxy (slack 16 MiB); exact delivered values are checked in C01/C18.", "DESIGN.md section 3 C02"),
+ "C06": ("exploration", "incremental reply-stream monitor under yielding per-vector writes + gated batches in every release order + head-of-line oracle on a rendezvous matrix decided by process quiescence",
+         "Reply storms (2-256 in flight, 1-3 vector replies, adversarial tags with immediate re-use, 1-4 connections) through a writer that forwards and yields on every Write: the byte stream must parse as whole frames, each request answered once with its own tag and a legal type, nothing unsolicited; k<=4 requests parked in the backend released in every order; every flavour of Tflush answered once; 8/64/200 requests parked then one more served; and for every cell of the (A parked, B issued) matrix where the contract does not order B after A (unrelated paths, read/read on one path, StatFS/Lock), B must complete while A is parked - B observed parked inside p9 with the whole process quiet is the violation.",
+         "Hangs are decided from stable all-parked goroutine dumps; interleavings between harness-visible events are sampled, not enumerated. Parent/child relations are not judged by the head-of-line oracle.", "DESIGN.md section 3 C06"),
+ "C07": ("exploration", "online overlap monitor (interval intersection on a logical clock) in an instrumented backend, driven by a pairwise rendezvous matrix with gates",
+         "Every ordered pair of 23 backend-reaching operations (+ attach) x path relation is forced to rendezvous: A is parked inside its backend call, B is issued and observed until it entered the backend, was answered, or the process is quiet. The backend's monitor flags any pair of calls whose intervals intersect and which the File contract forbids (write/write, write/read on one path, UnlinkAt vs calls on the removed entry, RenameAt/Renamed vs anything classified), and any second Open on a handle; 2-4 concurrent Tlopen on one fid.",
+         "Receiver paths are those memfs derives from Renamed notifications; hard links are excluded; the second operand of a pair is only parked-against, not itself parked (the matrix is ordered, so both orders are covered).", "DESIGN.md section 3 C07"),
 }
 
 PENDING = "check under construction in this round (DESIGN.md section 3); will be claimed once its monitor is committed and silent on the repaired tree"
